@@ -9,7 +9,8 @@
 EXTENDS OneWay, TLC
 
 CONSTANTS QueueMode, QCap, MaxConn, NPacks,
-          Broken      \* "none", or a deliberately broken design TLC must refute: "nolock" | "keepwriter" | "wdial"
+          Broken      \* "none", or a deliberately broken design TLC must refute:
+                      \* "nolock" | "keepwriter" | "wdial" | "stalelic" | "evict"
 
 AllPacks == { [id |-> 1, owner |-> "s1", pcode |-> 7, lic |-> NoLic, body |-> 1, big |-> FALSE],
               [id |-> 2, owner |-> "s1", pcode |-> 8, lic |-> "LB",  body |-> 2, big |-> TRUE],
@@ -60,10 +61,33 @@ WorkerDialEnd ==
   /\ UNCHANGED <<conf, lock, cur, fr, listener, queue, reg, okset, errset, res, faults>>
 DoWorkerDialRacy == WorkerDialStart \/ WorkerDialEnd
 
+\* broken design "stalelic": the default license is taken once (when the client is made) and kept: a frame built
+\* after a configuration change still carries the old one
+BuildStale(a) ==
+  /\ pc[a] = "locked"
+  /\ fr' = [fr EXCEPT ![a] = [k \in 1..2 |-> [Unit(cur[a], k) EXCEPT !.h.lic = IF cur[a].lic = NoLic THEN "LA" ELSE cur[a].lic]]]
+  /\ pc' = [pc EXCEPT ![a] = "built"]
+  /\ UNCHANGED <<conf, lock, cur, conn, nconn, wbuf, werr, net, wire, listener, queue, reg, okset, errset, res, faults, streak>>
+
+\* broken design "evict": a send into a full queue is accepted and the oldest accepted pack is thrown away
+EnqueueEvict(s, p) ==
+  /\ Broken = "evict" /\ conf.queue /\ s \in Sender /\ p.id \notin DOMAIN reg \cup errset
+  /\ conf.qcap > 0 /\ Len(queue) >= conf.qcap
+  /\ queue' = Append(Tail(queue), p) /\ Register(p) /\ okset' = okset \cup {p.id}
+  /\ UNCHANGED <<conf, lock, pc, cur, fr, conn, nconn, wbuf, werr, net, wire, listener, errset, res, faults, streak>>
+DoEnqueueEvict == \E s \in Sender, p \in MCPacks : IsNext(s, p) /\ EnqueueEvict(s, p)
+
+\* configuration changes between sends: the default license toggles between LA and LD, the capacity of the queue
+\* between QCap and QCap - 1, the server list between the collector and somewhere else; by field or by ApplyConfig
+DoReconfig == \E via \in {"field", "apply"}, lic \in {"LA", "LD"}, srv \in {Here, "away"}, dialok \in BOOLEAN :
+                \E qcap \in (IF QueueMode THEN {QCap, QCap - 1} ELSE {QCap}) :
+                   /\ (lic # conf.deflic \/ qcap # conf.qcap \/ srv # conf.srv)
+                   /\ Reconfig(via, lic, qcap, srv, dialok)
+
 DoLock        == \E s \in Sender : IF Broken = "nolock" THEN LockNoMutex(s) ELSE Lock(s)
 DoUnlock      == \E s \in Sender : Unlock(s)
 DoReturn      == \E s \in Sender : Return(s)
-DoBuild       == \E a \in Actor : Build(a)
+DoBuild       == \E a \in Actor : IF Broken = "stalelic" THEN BuildStale(a) ELSE Build(a)
 DoConnectOk   == \E a \in Actor : IF Broken = "keepwriter" THEN ConnectKeepWriter(a) ELSE ConnectOk(a)
 DoConnectFail == \E a \in Actor : ConnectFail(a)
 DoBufWrite    == \E a \in Actor : BufWrite(a)
@@ -83,14 +107,14 @@ SendSteps == \/ DoBuild \/ DoConnectOk \/ DoConnectFail \/ DoBufWrite \/ DoSpill
 (* ~conf.queue; Lock/Unlock/Return follow a Call; Enqueue, EnqueueFull,     *)
 (* Dequeue, IdleFlush: conf.queue; the worker moves only after a Dequeue).  *)
 DirectSteps == DoCall \/ DoLock \/ DoUnlock \/ DoReturn \/ DoWorkerDialRacy
-QueueSteps  == DoEnqueue \/ DoEnqueueFull \/ Dequeue \/ WorkerSkipFlush \/ WorkerDone \/ DoIdleFlush
+QueueSteps  == DoEnqueue \/ DoEnqueueFull \/ DoEnqueueEvict \/ Dequeue \/ WorkerSkipFlush \/ WorkerDone \/ DoIdleFlush
 ClientNext  == DirectSteps \/ QueueSteps \/ SendSteps
 
 DoPeerClose == \E c \in Conns : PeerClose(c)
 DoPeerReset == \E c \in Conns : PeerReset(c)
-EnvNext == DoPeerClose \/ DoPeerReset \/ ListenerDown \/ ListenerUp
+EnvNext == DoPeerClose \/ DoPeerReset \/ ListenerDown \/ ListenerUp \/ DoReconfig
 
-MCInit == InitWith([queue |-> QueueMode, qcap |-> QCap, deflic |-> "LA"])
+MCInit == InitWith([queue |-> QueueMode, qcap |-> QCap, deflic |-> "LA", srv |-> Here, gen |-> 0])
 MCNext == ClientNext \/ EnvNext
 MCSpec == MCInit /\ [][MCNext]_vars
 LiveSpec == MCInit /\ [][MCNext]_vars /\ WF_vars(ClientNext)
